@@ -591,7 +591,14 @@ impl<'a> Pool<'a> {
     pub fn seq_group(&mut self) -> Spec {
         let wrapper = self.rng.below(5);
         let repeated = wrapper == 2;
-        let mut fields = vec![self.simple_required_field()];
+        let first = self.simple_required_field();
+        // a hidden member in front of visible ones (the group's documentation must survive it)
+        let first = if self.o.hidden && self.rng.chance(1, 4) {
+            Spec::wrap(W::Hide, self.id(), first)
+        } else {
+            first
+        };
+        let mut fields = vec![first];
         for _ in 0..self.rng.range(1, 2) {
             if repeated || self.rng.chance(1, 2) {
                 fields.push(self.simple_required_field());
@@ -599,7 +606,15 @@ impl<'a> Pool<'a> {
                 fields.push(self.named_field());
             }
         }
-        let g = Spec::Seq(fields);
+        let mut g = Spec::Seq(fields);
+        if self.o.decor && self.rng.chance(1, 3) {
+            let id = self.id();
+            g = if self.rng.chance(1, 2) {
+                Spec::wrap(W::GroupHelp(format!("group-{}", id)), id, g)
+            } else {
+                Spec::wrap(W::WithGroupHelp(format!("wgroup-{}", id)), id, g)
+            };
+        }
         match wrapper {
             0 => Spec::wrap(W::Optional { catch: false }, self.id(), g),
             1 => Spec::wrap(W::Fallback, self.id(), g),
